@@ -193,47 +193,6 @@ def run(ctx):
     if k not in ddsites:
         raise AnalysisBroken('del_dochan: no state change explored')
     r4.check(ddsites[k][0], k, ddsites[k][1], ddsites[k][2], ddsites[k][3])
-    # clamp
-    clamp = None
-    reset = None
-    for x in dd.all_x():
-        if x.k == 'asg' and x.op == '=' and x.args[0].path() and x.args[0].path().endswith('.len') and 'dline' in x.args[0].path():
-            if x.args[1].const == reportmax:
-                clamp = x
-            if x.args[1].const == 0:
-                reset = x
-    if clamp is None:
-        r4.bad('report-clamped-to-REPORTMAX', 'qmail-send.c:del_dochan', 'no assignment dline[c].len = REPORTMAX')
-    else:
-        g = dd.guards(clamp) or []
-        ok = False
-        for c, t in g:
-            hs = holds_set(c, t, lambda v: v.path() is not None and v.path().endswith('.len') and 'dline' in v.path())
-            if hs and hs(reportmax + 1) and not hs(reportmax):
-                ok = True
-        app = [c for c in dd.calls('stralloc_append') if c.args[1].string is None]   # the byte read from the pipe
-        ok2 = bool(app) and all(dd.dominates(a, clamp) for a in app)
-        switches = [b for b in dd.blocks.values() if b.term and b.term.get('k') == 'switch']
-        # every path from the append to the report handling passes the clamp test
-        test_blk = None
-        for c, t in g:
-            hs = holds_set(c, t, lambda v: v.path() is not None and v.path().endswith('.len') and 'dline' in v.path())
-            if hs:
-                test_blk = dd.pos[c.id][0]
-        ok4 = test_blk is not None and all(not dd.can_reach(dd.pos[a.id][0], b.id, avoid={test_blk}) for a in app for b in switches)
-        r4.check(ok and ok2 and ok4, 'report-clamped-to-REPORTMAX', clamp.where,
-                 'clamp must be: after the append, under len > REPORTMAX (exactly), before the report is interpreted (guard=%s after-append=%s before-use=%s)' % (ok, ok2, ok4))
-    if reset is None:
-        r4.bad('report-buffer-reset-after-report', 'qmail-send.c:del_dochan', 'no dline[c].len = 0')
-    else:
-        # from the report-handling switch, the loop head cannot be reached without the reset
-        rb = dd.pos[reset.id][0]
-        switches = [b for b in dd.blocks.values() if b.term and b.term.get('k') == 'switch']
-        loops = [b.id for b in dd.blocks.values() if b.term and b.term.get('k') in ('for', 'while')]
-        ok = bool(switches) and bool(loops)
-        for sblk in switches:
-            for lh in loops:
-                if dd.can_reach(sblk.id, lh, avoid={rb}):
-                    ok = False
-        r4.check(ok, 'report-buffer-reset-after-report', reset.where, 'a handled report can reach the next byte without dline[c].len = 0')
+    for inst, v in sorted(qsend.analyse_report_buffer(db, rep).items()):
+        r4.check(v[0], inst, v[1], v[2], v[3])
     r4.expect_min(3)
